@@ -13,6 +13,7 @@ import RbModel.Lemmas.GsubSingleSpec
 import RbModel.Lemmas.GsubAlternateSpec
 import RbModel.Lemmas.GsubMultiSpec
 import RbModel.Lemmas.GsubMultiDel
+import RbModel.Lemmas.GsubMultiMixed
 
 namespace RbModel.Buf
 
@@ -529,5 +530,64 @@ example : (match applyString exDelCtx2 exDelLookup 2 with
 /-- … which the specification does not describe (it keeps cluster 1) -/
 example : (applyLookupFwd exDelCtx2.font 0 exDelLookup 8 2 ((exDelCtx2.buf.info.take 2).map toG) 0).map
     (fun g => (g.gid, g.cluster)) = [(3, 1)] := by decide
+
+/-- **C06, mixed single / multiple / alternate lookups** (the generic scheme "replace the current glyph by a list"; it
+    contains Parts 2, 3 and `C06_multiple_subst_refines_spec` as special cases, with the union of their hypotheses): for a
+    lookup whose subtables are single, multiple (non-empty sequences) or alternate substitutions in any order, the first
+    subtable that applies decides, exactly as in the OpenType model. -/
+theorem C06_simple_subst_refines_spec (l : Lookup) (hall : l.subtables.all Subtable.isSimple = true)
+    (hseq : SeqsNonempty l.subtables) (hshort : AltSetsShort l.subtables)
+    (c : Ctx) (fuel level : Nat) (hrnd : c.random = false) (hlm : c.lookupMask < 2 ^ 32)
+    (hsu : c.buf.successful = true) (hlen : c.buf.len ≤ c.buf.info.length)
+    (hout : c.buf.out.length = c.buf.info.length) (hf : c.buf.len ≤ fuel)
+    (hgid : ∀ x ∈ c.buf.info.take c.buf.len, x.gid < 65536)
+    (hsync : ∀ x ∈ c.buf.info.take c.buf.len,
+      checkGlyphProperty c.font x l.props = !ignored c.font l.props (toG x))
+    (hbudget : (applyLookupFwd c.font level l c.lookupMask fuel ((c.buf.info.take c.buf.len).map toG) 0).length
+      ≤ c.buf.maxLen) :
+    ∃ c', applyString c l fuel = .ok c' ∧ c'.buf.successful = true ∧ c'.buf.len ≤ c'.buf.info.length ∧
+      (c'.buf.info.take c'.buf.len).map toG
+        = applyLookupFwd c.font level l c.lookupMask fuel ((c.buf.info.take c.buf.len).map toG) 0 := by
+  have hspec : applyLookupFwd c.font level l c.lookupMask fuel ((c.buf.info.take c.buf.len).map toG) 0
+      = (c.buf.info.take c.buf.len).flatMap
+          (stepL c.font c.lookupMask l.props (simpleSeq? c.lookupMask l.subtables)) := by
+    rw [applyLookupFwd_list c.font level l c.lookupMask (simpleSeqG? c.lookupMask l.subtables) (fun g => g.gid < 65536)
+          (fun gs i g hg hgid' =>
+            firstSubtable_simple c.font level l.props c.lookupMask hlm gs i g hg hgid' l.subtables hall hshort)
+          fuel _ 0
+          (by
+            intro q g _ hg
+            have hmem : g ∈ (c.buf.info.take c.buf.len).map toG := List.mem_of_getElem? hg
+            obtain ⟨x, hx, rfl⟩ := List.mem_map.mp hmem
+            exact hgid x hx)
+          (by simp; omega) (Nat.zero_le _)]
+    simp only [List.take_zero, List.nil_append, List.drop_zero, List.flatMap_map]
+    symm
+    apply flatMap_congr_mem
+    intro x hx
+    rw [toG_eq_projG]
+    exact stepL_eq_specStepL c.font l c.lookupMask _ (simpleSeqG? c.lookupMask l.subtables) x rfl (hsync x hx)
+  rw [hspec] at hbudget ⊢
+  obtain ⟨c', hrun, hsu', hle', hres⟩ :=
+    applyString_list l (simpleSeq? c.lookupMask l.subtables) (simple_not_reverse l hall) c true
+      (actsAsL_simple l hall c.lookupMask)
+      (fun x ss h => simpleSeqGM_ne_nil c.lookupMask l.subtables hseq _ _ ss h)
+      C06_gen_buffer_variants.2 (fun _ => hrnd) fuel hsu hlen hout hf hbudget
+  exact ⟨c', hrun, hsu', hle', by rw [toG_eq_projG]; exact hres⟩
+
+/-! non-vacuity: one lookup with a single, a multiple and an alternate subtable; feature value 2 in mask bits 4-5 -/
+def exMixLookup : Lookup :=
+  { props := 0, subtables := [.single1 [1] 10, .multiple [1, 3] [[9], [7, 8, 7]], .alternate [2, 3] [[5, 6], [4]]] }
+def exMixCtx : Ctx :=
+  { font := exFont, lookupMask := 48,
+    buf := { info := [⟨1,0x20,0,GP.BASE_GLYPH,0⟩, ⟨2,0x20,1,GP.MARK,0⟩, ⟨3,0x10,2,0,0⟩, ⟨3,0,3,0,0⟩],
+             out := [{}, {}, {}, {}], len := 4 } }
+example : exMixLookup.subtables.all Subtable.isSimple = true := by decide
+example : ∀ x ∈ exMixCtx.buf.info.take exMixCtx.buf.len,
+    checkGlyphProperty exMixCtx.font x exMixLookup.props = !ignored exMixCtx.font exMixLookup.props (toG x) := by decide
+example : (match applyString exMixCtx exMixLookup 4 with
+    | .ok c' => (c'.buf.info.take c'.buf.len).map (fun x => (x.gid, x.cluster)) ==
+                  [(11, 0), (6, 1), (7, 2), (8, 2), (7, 2), (3, 3)]
+    | .error _ => false) = true := by decide
 
 end RbModel.Gsub
